@@ -121,4 +121,29 @@ theorem edns_opt_source_src : edns_opt_source = "req.IsEdns0()" := by decide
 /-- A device domain is the configured wildcard without its `*.` and nothing else (no case folding, no validation). -/
 theorem wildcard_domain_src : wildcard_domain = "w, \"*.\"" := by decide
 
+/-! Round 5: production wiring (`internal/cmd`), model: `srvOfConf`, `protoOfYAML`, `validWildcards`. -/
+/-- A group's device domains are its own converted wildcards, its profile switch is its own `profiles_enabled`. -/
+def srvgrp_literal_expected : String :=
+  "&agd.ServerGroup{ DDR: g.DDR.toInternal(messages), DeviceDomains: deviceDomains, Name: agd.ServerGroupName(g.Name), FilteringGroup: fltGrpID, ProfilesEnabled: g.ProfilesEnabled, }"
+set_option maxRecDepth 16384 in
+theorem srvgrp_literal_src : srvgrp_literal = srvgrp_literal_expected := by decide
+/-- The same list (declared inside the loop over the groups) goes to the group's servers (TLS metrics only). -/
+theorem srvgrp_domains_src : srvgrp_domains = "btdMgr, tlsMgr, ratelimitConf, dnsConf, deviceDomains" := by decide
+/-- A server's linked-IP switch and protocol are its own. -/
+def srv_literal_expected : String :=
+  "&agd.Server{ Name: name, ReadTimeout: dnsConf.ReadTimeout.Duration, WriteTimeout: dnsConf.WriteTimeout.Duration, LinkedIPEnabled: srv.LinkedIPEnabled, Protocol: srv.Protocol.toInternal(), }"
+set_option maxRecDepth 16384 in
+theorem srv_literal_src : srv_literal = srv_literal_expected := by decide
+/-- `serverProto.toInternal` = `protoOfYAML`: names in this order map to these protocols, anything else to invalid. -/
+theorem yaml_proto_cases_src :
+    yaml_proto_cases = "srvProtoDNS | srvProtoDNSCrypt | srvProtoHTTPS | srvProtoQUIC | srvProtoTLS | default" := by decide
+def yaml_proto_returns_expected : String :=
+  "agd.ProtoDNS | agd.ProtoDNSCrypt | agd.ProtoDoH | agd.ProtoDoQ | agd.ProtoDoT | agd.ProtoInvalid"
+set_option maxRecDepth 16384 in
+theorem yaml_proto_returns_src : yaml_proto_returns = yaml_proto_returns_expected := by decide
+theorem yaml_names_src : yaml_dns = "\"dns\"" ∧ yaml_dnscrypt = "\"dnscrypt\"" ∧ yaml_https = "\"https\"" ∧
+    yaml_quic = "\"quic\"" ∧ yaml_tls = "\"tls\"" := by decide
+/-- `validateDeviceIDWildcards` = `validWildcards`: every entry starts with `*.`, none twice. -/
+theorem wildcard_guards_src : wildcard_guards = "!strings.HasPrefix(w, \"*.\") | s.Has(w)" := by decide
+
 end Agd.Tie.C03
